@@ -39,7 +39,7 @@ func c13Lexemes(ctx *Ctx, kind int) []lexeme {
 			if kind == 1 {
 				lx = lexeme{pick("abc", "x1", "_y", "Zed", "é", "ñandú", "a日本", "q_9", "Añ", "ÿ", "Louÿs", "Àÿ", "aĀ", "e٣", "E５", "e", "Ex", "e_1", "a٣", "LI\u212aE", "li\u212ae", "NUL\u0141", "aﬁ", "x\u212a"), tokenizers.Word, "identifier"}
 			} else {
-				lx = lexeme{pick("abc", "x1", "y_", "Zed", "é", "日本", "a-b", "ключ", "q_9", "ÿ", "Louÿs", "Àÿ", "Āa", "\ufffe", "٣x", "５m", "९", "e5", "E"), tokenizers.Word, "identifier"}
+				lx = lexeme{pick("abc", "x1", "y_", "Zed", "é", "日本", "a-b", "ключ", "q_9", "ÿ", "Louÿs", "Àÿ", "Āa", "\ufffe", "٣x", "５m", "९", "e5", "E", "\ufeffab", "\ufeff", "\u200bx", "\u2028y"), tokenizers.Word, "identifier"}
 			}
 		case c == 1 && kind == 1:
 			kw := pick("AND", "OR", "NOT", "XOR", "LIKE", "IS", "IN", "NULL", "TRUE", "FALSE")
@@ -96,7 +96,7 @@ func c13Lexemes(ctx *Ctx, kind int) []lexeme {
 			}
 		default:
 			if kind == 1 {
-				lx = lexeme{pick("+", "-", "*", "(", ")", "[", "]", ",", "=", "<", ">", "%", "^", "!", "@", "$", "/", "٣", "５", "日", "€", ".", "."), tokenizers.Symbol, "symbol1"}
+				lx = lexeme{pick("+", "-", "*", "(", ")", "[", "]", ",", "=", "<", ">", "%", "^", "!", "@", "$", "/", "٣", "５", "日", "€", ".", ".", "\ufeff", "\u2028"), tokenizers.Symbol, "symbol1"}
 			} else {
 				lx = lexeme{pick("+", "*", "(", ")", "[", "]", ",", "=", "<", ">", "%", "^", "!", "@", "$", "/"), tokenizers.Symbol, "symbol1"}
 			}
